@@ -2,6 +2,7 @@ package checks
 
 import (
 	"fmt"
+	"regexp"
 	"strings"
 	"time"
 
@@ -120,6 +121,7 @@ func init() {
 	var nSeeds int
 	mon.Register(&mon.Check{
 		ID:          "C07",
+		Solo:        c07Solo,
 		Rule:        "evaluations = Lint*Ex calls; for each object the full-registry run is compared, lint by lint (status and details), with runs under filtered registries - every lint ALONE (one single-lint registry per lint of the object's kind) and seeded multi-lint filters (name-sorted execution order vs registration order) - plus 'no result for unselected lints' and 'flags of the filtered run are a subset of the full run's'. distinct_nontrivial (de-duplicated by a hash of the DER bytes within each worker process) = distinct objects with >= 1 lint beyond NA that went through the comparison.",
 		Assumptions: []string{"a UTC date change between two compared runs may move only the two clock-reading AIA lints; such differences are dropped"},
 		Setup: func(c *mon.Ctx) error {
@@ -216,3 +218,94 @@ func init() {
 }
 
 var _ = corpus.Cert
+
+// c07Solo (own process): after the registry has been used, lints of every kind are registered through the public
+// API; a filter that selects them must then run them, with the verdict the full registry gives.
+func c07Solo(c *mon.Ctx) {
+	g := lint.GlobalRegistry()
+	objs := map[corpus.Kind]*mon.Obj{}
+	for _, k := range []corpus.Kind{corpus.Cert, corpus.CRL, corpus.OCSP} {
+		if idxs := W.ByKind[k]; len(idxs) > 0 {
+			objs[k] = W.Objs[idxs[0]]
+			_, _, _ = objs[k].Lint(g) // first use
+		}
+	}
+	_, _ = g.Filter(lint.FilterOptions{IncludeSources: lint.SourceList{lint.Community}})
+	type added struct {
+		name string
+		kind corpus.Kind
+		src  lint.LintSource
+	}
+	var adds []added
+	m := func(n string, s lint.LintSource) lint.LintMetadata {
+		return lint.LintMetadata{Name: n, Description: "verif addition", Citation: "verif", Source: s}
+	}
+	// one registration at a time, checks after EACH (a later registration of another kind may repair what an
+	// earlier one left stale), two waves, the OCSP kind both first and last
+	type step struct {
+		a   added
+		reg func()
+	}
+	var steps []step
+	for wave := 0; wave < 2; wave++ {
+		sfx := fmt.Sprint(wave)
+		oc := step{added{"e_verif_c07_ocsp" + sfx, corpus.OCSP, lint.RFC8813}, func() {
+			lint.RegisterOcspResponseLint(&lint.OcspResponseLint{LintMetadata: m("e_verif_c07_ocsp"+sfx, lint.RFC8813), Lint: func() lint.OcspResponseLintInterface { return c01POCSP{c01P{st: lint.Error}} }})
+		}}
+		cr := step{added{"w_verif_c07_crl" + sfx, corpus.CRL, lint.RFC8813}, func() {
+			lint.RegisterRevocationListLint(&lint.RevocationListLint{LintMetadata: m("w_verif_c07_crl"+sfx, lint.RFC8813), Lint: func() lint.RevocationListLintInterface { return c01PCRL{c01P{st: lint.Warn}} }})
+		}}
+		ce := step{added{"n_verif_c07_cert" + sfx, corpus.Cert, lint.RFC8813}, func() {
+			lint.RegisterCertificateLint(&lint.CertificateLint{LintMetadata: m("n_verif_c07_cert"+sfx, lint.RFC8813), Lint: func() lint.CertificateLintInterface { return c01PCert{c01P{st: lint.Notice}} }})
+		}}
+		if wave == 0 {
+			steps = append(steps, oc, cr, ce)
+		} else {
+			steps = append(steps, ce, cr, oc)
+		}
+	}
+	for wave, st := range steps {
+		st.reg()
+		adds = append(adds, st.a)
+		for _, a := range adds {
+			o := objs[a.kind]
+			if o == nil {
+				continue
+			}
+			full, pv, _ := o.Lint(g)
+			if pv != nil || full == nil {
+				continue
+			}
+			fr := full.Results[a.name]
+			if fr == nil {
+				c.V("added-lint-not-run|full", fmt.Sprintf("lint %s was registered (wave %d) but the full registry gives no result for it", a.name, wave), a.name, inputs(o), nil)
+				continue
+			}
+			for label, opts := range map[string]lint.FilterOptions{
+				"include name":   {IncludeNames: []string{a.name}},
+				"name pattern":   {NameFilter: regexp.MustCompile("^" + a.name + "$")},
+				"include source": {IncludeSources: lint.SourceList{a.src}},
+				"exclude source": {ExcludeSources: lint.SourceList{lint.CABFBaselineRequirements}},
+				"exclude name":   {ExcludeNames: []string{"e_ca_is_ca"}},
+			} {
+				reg, err := g.Filter(opts)
+				c.R.Count("evaluations", 1)
+				c.R.Count("addition_filter_runs", 1)
+				if err != nil {
+					c.V("added-lint-not-selectable|"+label, fmt.Sprintf("filter (%s) selecting the added lint %s fails: %v", label, a.name, err), a.name, nil, nil)
+					continue
+				}
+				rs, pv, _ := o.Lint(reg)
+				if pv != nil || rs == nil {
+					continue
+				}
+				r := rs.Results[a.name]
+				if r == nil {
+					c.V("selected-lint-not-run|"+label, fmt.Sprintf("filter (%s) selects the added lint %s but the filtered run has no result for it (the full run reports %s)", label, a.name, fr.Status), a.name, inputs(o), nil)
+				} else if r.Status != fr.Status || r.Details != fr.Details {
+					c.V("differs|"+a.name, fmt.Sprintf("added lint %s: full registry %s, filtered (%s) %s", a.name, fr.Status, label, r.Status), a.name, inputs(o), nil)
+				}
+			}
+		}
+	}
+}
